@@ -80,6 +80,32 @@ CHECKS['C16'] = dict(
    note='Trusted: TLC, CommunityModules, g++; Btdmp.tla as a reading of the property. Full width (capacity 16, 16-bit words, '
         'period 4096) is covered by trace validation, exhaustive only at the scaled constants.',
    technique='TLA+ spec + TLC exhaustive model checking + TLC trace validation of recorded executions')
+CHECKS['C12'] = dict(
+   text='Mmio.tla is the MMIO register file as an explicit hand-written table (177 documented offsets, 32 bit-field registers with 97 '
+        'slots, side-effect cells). TLC checks read-back, non-aliasing against an explicit documented-coupling relation (shown tight), '
+        'DMA channel-window independence and path agreement for every (written offset, value class, base state); recorded write/read '
+        'sweeps and random histories on a real Teakra through both paths are validated by TLC, which must predict the complete set of '
+        'changed read-backs and device fields after every access.',
+   design_ref='5.12',
+   note='Trusted: TLC, CommunityModules, g++; the table is a frozen hand transcription of mmio.cpp + docs. Effects that leave the register '
+        'file (DMA transfer, FIFO contents) are modelled only as far as read-back needs.',
+   technique='TLA+ spec + TLC exhaustive model checking over offset pairs + TLC trace validation of recorded MMIO histories')
+CHECKS['C13'] = dict(
+   text='Dma.tla/Ahbm.tla transcribe the transfer loop and the AHBM bursts; TLC checks on scaled counters that the produced element '
+        'sequence equals the closed-form 3-D strided sequence, termination, exactly one interrupt, footprint and the aligned-unit AHBM '
+        'clauses for all size/step/mode/space combinations; recorded transfers (direct rig and full Teakra through MMIO) are validated '
+        'element by element by TLC including every DSP-memory access and external callback.',
+   design_ref='5.13',
+   note='Trusted: TLC, CommunityModules, g++. DSP-side cursors are kept inside data memory (the unmasked cursor is a C18 finding).',
+   technique='TLA+ spec + TLC exhaustive model checking at scaled widths + TLC trace validation of recorded transfers')
+CHECKS['C14'] = dict(
+   text='Apbp.tla/ApbpSys.tla model both mailbox directions as wired by Teakra and the MMIO registers 0x0C0-0x0D8; TLC checks the '
+        'handshake invariants and interrupt action properties exhaustively (2 channels x 2 data values x 2 semaphore bits, both '
+        'directions); every transition of the one-direction state graphs is replayed on a real Teakra (spec -> impl) and random '
+        'histories through facade + MMIO are validated by TLC (impl -> spec).',
+   design_ref='5.14',
+   note='Trusted: TLC, CommunityModules, g++. 3 channels and 16 semaphore bits are covered by trace validation, exhaustive at the scaled constants.',
+   technique='TLA+ spec + TLC exhaustive model checking + state-graph edge replay + TLC trace validation')
 NOT_YET = {}
 def main():
     props = [json.loads(l)['id'] for l in open(os.path.join(V, 'properties.jsonl'))]
